@@ -1086,6 +1086,9 @@ class SSHConnection(SSHPacketHandler, asyncio.Protocol):
             self._process_global_response(MSG_REQUEST_FAILURE, 0,
                                           SSHPacket(b''))
 
+        # Requests still queued can't be served once the connection is gone
+        self._global_request_queue = []
+
         if self._auth:
             self._auth.cancel()
             self._auth = None
@@ -2216,6 +2219,10 @@ class SSHConnection(SSHPacketHandler, asyncio.Protocol):
 
     def _report_global_response(self, result: Union[bool, bytes]) -> None:
         """Report back the response to a previously issued global request"""
+
+        if not self._global_request_queue:
+            # The connection was cleaned up while the request was in progress
+            return
 
         _, _, want_reply = self._global_request_queue.pop(0)
 
